@@ -57,7 +57,9 @@ impl PartialEq for Object {
             return false;
         }
         // because we allow duplicated keys in object, so we need to compare by `get`
+        // and in both directions, otherwise `{"a":1,"a":2} == {"a":1,"b":2}` but not vice versa
         self.iter().all(|(k, _)| other.get(&k) == self.get(&k))
+            && other.iter().all(|(k, _)| self.get(&k) == other.get(&k))
     }
 }
 
